@@ -15,14 +15,30 @@ def cfg_text(name, over=None):
     return s
 
 
+def mc_replay_many(ctx, runs, parallel=4, **common):
+    """runs: list of dicts(cfgname, over, label, ...) -- TLC runs concurrently, replays afterwards."""
+    jobs = []
+    for r in runs:
+        module = r.get("module", common.get("module", "KernelMC"))
+        jobs.append({"module": module, "cfg": cfg_text(r["cfgname"], r.get("over")), "spec_dir": "kernel",
+                     "label": r.get("label") or "%s/%s" % (module, r["cfgname"]), "timeout": r.get("timeout", 3400), "coverage": False})
+    results = ctx.mc_many(jobs, parallel=parallel)
+    out = []
+    for r, res in zip(runs, results):
+        kw = dict(common)
+        kw.update({k: v for k, v in r.items() if k not in ("cfgname", "over", "label", "timeout")})
+        out.append(mc_replay(ctx, r["cfgname"], r.get("over"), label=r.get("label"), _result=res, **kw))
+    return out
+
+
 def mc_replay(ctx, cfgname, over=None, label=None, driver="kernel", module="KernelMC", limit=None,
-              required=(), timeout=3400, wrap=None):
+              required=(), timeout=3400, wrap=None, _result=None):
     """Exhaustive run of the kernel spec over all programs within the bounds; every emitted program is executed
     on the real kernel and its log compared with the log the specification predicts (spec -> code)."""
     # -coverage is switched off for the kernel spec: with its large CASE expressions TLC's coverage bookkeeping makes
     # the run orders of magnitude slower; vacuity is judged from the emitted logs instead (classify()).
-    r = ctx.mc(module, cfg_text(cfgname, over), "kernel", required_actions=required,
-               label=label or "%s/%s" % (module, cfgname), timeout=timeout, coverage=False)
+    r = _result if _result is not None else ctx.mc(module, cfg_text(cfgname, over), "kernel", required_actions=required,
+                                                   label=label or "%s/%s" % (module, cfgname), timeout=timeout, coverage=False)
     progs = {}
     for w in r.emitted():
         progs.setdefault(json.dumps(w["script"], sort_keys=True), w)
